@@ -800,12 +800,15 @@ def locate(diag, A, fname):
             break
     clause = ""
     clause_line = None
+    clause_tags = []
     vstd_clause = False
     if prim:
         s = prim[0]
         if os.path.basename(s["file_name"]) == os.path.basename(fname):
             clause_line = s["line_start"]
-            clause = " ".join(t["text"].strip() for t in s.get("text", []))[:400]
+            full_clause = " ".join(t["text"].strip() for t in s.get("text", []))
+            clause = full_clause[:400]
+            clause_tags = tags_of(full_clause) or []      # (from the whole clause: the tag sits at its end, beyond the 400 characters kept)
         else:
             vstd_clause = True
             clause = f"<{s['file_name']}:{s['line_start']}>"
@@ -820,10 +823,12 @@ def locate(diag, A, fname):
     for s in allsp:
         if s.get("label") and "failed precondition" in s["label"]:
             if os.path.basename(s["file_name"]) == os.path.basename(fname):
-                failed_req = " ".join(t["text"].strip() for t in s.get("text", []))[:400]
+                full_req = " ".join(t["text"].strip() for t in s.get("text", []))
+                failed_req = full_req[:400]
+                clause_tags = list(clause_tags) + (tags_of(full_req) or [])
             else:
                 failed_req = f"<{s['file_name']}:{s['line_start']}>"
-    return {"fn": fn, "fn_info": fn_info, "clause": clause, "clause_line": clause_line, "vstd_clause": vstd_clause,
+    return {"fn": fn, "fn_info": fn_info, "clause": clause, "clause_line": clause_line, "clause_tags": sorted(set(clause_tags)), "vstd_clause": vstd_clause,
             "labels": labels, "failed_requires": failed_req, "line": where_line}
 
 
